@@ -265,37 +265,78 @@ def rule_comment(check):
     r = prog.fn("rewriter::remove_source_map_comments")
     e = prog.fn("rewriter::extract_source_map")
 
+    PREFIX_TESTS = ("starts_with", "strip_prefix")
+
     def predicate(f):
         out = []
-        for n in hir.calls_in(f.body, name="starts_with"):
-            recv = hir.peel(hir.call_args(n)[0])
-            chain = []
-            x = recv
-            for _ in range(6):
-                l = hir.local_of(x)
-                if l:
-                    b = f.bindings().get(l[0])
-                    if b and b["origin"][0] == "let" and b["origin"][1] is not None:
-                        x = hir.peel(b["origin"][1])
-                        continue
-                if x.get("k") == "MethodCall":
-                    chain.append(x["method"])
-                    x = hir.peel(x["recv"])
+        for g in prog.flat(f):
+            for n in hir.walk(g.body):
+                if not (hir.is_call(n) and (hir.callee_name(n) or n.get("method")) in PREFIX_TESTS):
                     continue
-                break
-            out.append((tuple(chain), hir.def_path_of(hir.call_args(n)[1]) or hir.describe(hir.call_args(n)[1]), (hir.place(x) or "").split(".")[-1]))
+                recv = hir.peel(hir.call_args(n)[0])
+                chain = []
+                x = recv
+                for _ in range(6):
+                    l = hir.local_of(x)
+                    if l:
+                        b = g.bindings().get(l[0])
+                        if b and b["origin"][0] == "let" and b["origin"][1] is not None:
+                            x = hir.peel(b["origin"][1])
+                            continue
+                    if x.get("k") == "MethodCall":
+                        chain.append(x["method"])
+                        x = hir.peel(x["recv"])
+                        continue
+                    break
+                out.append((tuple(chain), hir.def_path_of(hir.call_args(n)[1]) or hir.describe(hir.call_args(n)[1]), (hir.place(x) or "").split(".")[-1]))
         return sorted(set(out))
+
+    def has_prefix_test(g, x):
+        """x contains the prefix test itself or a call of a crate helper that performs it"""
+        for y in hir.walk(x):
+            if hir.is_call(y) and (hir.callee_name(y) or y.get("method")) in PREFIX_TESTS:
+                return True
+            h = prog.resolve_local(y) if hir.is_call(y) else None
+            if h is not None and any(hir.is_call(z) and (hir.callee_name(z) or z.get("method")) in PREFIX_TESTS for hh in prog.flat(h) for z in hir.walk(hh.body)):
+                return True
+        return False
 
     pr_, pe = predicate(r), predicate(e)
     check.expect(bool(pr_) and pr_ == pe, "SIBLING", "SIBLING/comment-predicate", hir.loc(r.rec), "extract and remove recognise the comment by the same test %s" % (pr_,), "extract_source_map recognises %s but remove_source_map_comments removes %s" % (pe, pr_))
     check.rule("SIBLING", "extract_source_map and remove_source_map_comments agree on what a sourceMappingURL comment is")
     rets = [n for n in hir.calls_in(r.body, name="retain")]
     ok = False
+    if len(rets) != 1:
+        rets = []
     for n in rets:
         cl = hir.peel(hir.call_args(n)[1])
         body = hir.peel(cl["body"]) if cl.get("k") == "Closure" else {}
-        ok = body.get("k") == "Unary" and body.get("op") == "Not" and hir.is_call(hir.peel(body["x"])) and hir.callee_name(hir.peel(body["x"])) == "starts_with"
+        neg = body.get("k") == "Unary" and body.get("op") == "Not" and hir.is_call(hir.peel(body["x"])) and has_prefix_test(r, body["x"])
+        none = body.get("k") == "MethodCall" and body.get("method") == "is_none" and has_prefix_test(r, body["recv"])
+        ok = neg or none
     check.expect(ok, R, R + "/retain-others", hir.loc(r.rec), "retain(|c| !is_source_map_comment(c)): other comments stay", "remove_source_map_comments does not keep exactly the other comments")
+
+
+def _traces_to_param(prog, pv, g, expr, e, idx, depth=0):
+    """some local mentioned in expr (inside g, a helper of e or e itself) is e's parameter #idx,
+    followed through the arguments at the call sites of the helpers inside e's flat view"""
+    if depth > 4:
+        return False
+    for y in hir.walk(expr):
+        if not hir.local_of(y):
+            continue
+        for r, p_ in pv.origins(g, y):
+            if r[0] != "param":
+                continue
+            if r[1] == e.def_path and r[2] == idx:
+                return True
+            if r[1] == g.def_path and g is not e:
+                for caller in prog.flat(e):
+                    for n in hir.calls_in(caller.body):
+                        if prog.resolve_local(n) is g and r[2] < len(hir.call_args(n)):
+                            if _traces_to_param(prog, pv, caller, hir.call_args(n)[r[2]], e, idx, depth + 1):
+                                return True
+    return False
 
 
 def rule_resolve(check):
@@ -304,29 +345,29 @@ def rule_resolve(check):
     prog = check.prog
     pv = Prov(prog)
     e = prog.fn("rewriter::extract_source_map")
-    dd = [n for n in hir.calls_in(e.body, name="decode_data_url")]
+    # the rules below look at what extract_source_map does, however it is split into crate helpers
+    dd = prog.flat_calls(e, name="decode_data_url")
     check.expect(len(dd) == 1, R, R + "/data-url-first", hir.loc(e.rec), "decode_data_url(url) is tried first", "inline data URLs are not decoded first")
-    joins = [n for n in hir.calls_in(e.body, name="join")]
+    joins = prog.flat_calls(e, name="join")
     check.floor(R, "relative path resolutions", len(joins), 1)
-    for n in joins:
-        atoms = gate.atoms_at(e, n)
+    for g, n in joins:
+        atoms = gate.atoms_at(g, n)
         rel = any(a[0] == "call" and a[1] == "is_absolute" and a[4] is False for a in atoms)
         from_parent = False
         bl = hir.local_of(hir.call_args(n)[0])
-        init = e.bindings()[bl[0]]["origin"][1] if bl and e.bindings()[bl[0]]["origin"][0] == "let" else hir.call_args(n)[0]
+        init = g.bindings()[bl[0]]["origin"][1] if bl and g.bindings()[bl[0]]["origin"][0] == "let" else hir.call_args(n)[0]
         for x in hir.walk(init) if init is not None else []:
             if hir.is_call(x) and (hir.callee_name(x) or x.get("method")) == "parent":
-                paths = [y for y in hir.walk(hir.call_args(x)[-1]) if hir.local_of(y)]
-                from_parent = any(e.bindings()[hir.local_of(y)[0]]["origin"][:2] == ("param", 0) for y in paths)
+                from_parent = _traces_to_param(prog, pv, g, hir.call_args(x)[-1], e, 0)
         check.expect(rel and from_parent, R, R + "/relative-to-source-file", hir.loc(n), "relative URL joined to parent(file_path)", "a relative map URL is not resolved against the folder of the source file")
-    absn = [n for n in e.nodes() if n.get("k") == "If" and hir.is_call(hir.peel(n["cond"])) and hir.callee_name(hir.peel(n["cond"])) == "is_absolute"]
-    for n in absn:
+    absn = [(g, n) for g in prog.flat(e) for n in g.nodes() if n.get("k") == "If" and hir.is_call(hir.peel(n["cond"])) and hir.callee_name(hir.peel(n["cond"])) == "is_absolute"]
+    for g, n in absn:
         th = hir.peel(n["then"])
         same = hir.local_of(th) and hir.local_of(th) == hir.local_of(hir.call_args(hir.peel(n["cond"]))[0])
         check.expect(bool(same), R, R + "/absolute-as-is", hir.loc(n), "absolute URL used as is", "an absolute map URL is altered")
-    reads = [n for n in hir.calls_in(e.body, name="read")]
-    check.expect(len(reads) == 1 and hir.local_of(hir.call_args(reads[0])[1]) is not None, R, R + "/read-final-path", hir.loc(e.rec), "the resolved path is read through the FileReader", "the map file is not read through the FileReader from the resolved path")
-    regs = [hir.pat_variant(a["pat"]) for m in hir.walk(e.body) if m.get("k") == "Match" for a in m["arms"]]
+    reads = [(g, n) for g, n in prog.flat_calls(e, name="read") if "FileReader" in ((n.get("callee") or {}).get("path", "") + (n.get("callee") or {}).get("trait", ""))]
+    check.expect(len(reads) == 1 and hir.local_of(hir.call_args(reads[0][1])[1]) is not None, R, R + "/read-final-path", hir.loc(e.rec), "the resolved path is read through the FileReader", "the map file is not read through the FileReader from the resolved path")
+    regs = [hir.pat_variant(a["pat"]) for g in prog.flat(e) for m in hir.walk(g.body) if m.get("k") == "Match" for a in m["arms"]]
     ok = any(isinstance(v, str) and v.endswith("DecodedMap::Regular") for v in regs)
     check.expect(ok, R, R + "/regular-only", hir.loc(e.rec), "only DecodedMap::Regular is used", "non-regular decoded maps are used")
     url = [n for n in hir.calls_in(e.body, name="get")]
@@ -340,6 +381,9 @@ def run(check):
     check.guarded("CHAIN-WIRING", rule_chain)
     check.guarded("TRAILER", rule_trailer)
     check.guarded("COMMENT-REMOVAL", rule_comment)
+    from . import c16 as _c16
+
+    check.guarded("COMPILER-SCOPE", _c16.rule_compiler_of_this_call)
     return {
         "explanation": "Provenance rules on the printed text (no position-blind edit), on the selection of the emitted map and on the arguments of SourceMapBuilder::add_raw / lookup_token; constant evaluation of the trailer format against the JS reader's constant; ordering and sibling rules for the comment removal.",
         "assumptions": ["sourcemap::SourceMap::lookup_token / SourceMapBuilder / VLQ encoding are correct", "base64 STANDARD engine"],
